@@ -12,6 +12,7 @@
 //!     of such a type are only observed in the program's final step;
 //!   * open finding "verdict carries the matched value's provenance": the verdict of a match on a
 //!     value with (possibly) known provenance is not consumed by the next term / step;
+//!   * open finding "return-type dispatch on a nil guard": no function parameter of type `T | []`;
 //!   * F24 residual: a branch condition with several matches contains something that makes the
 //!     compiler drop complement narrowing (builtin call, real block, literal / pin test).
 //!
@@ -683,6 +684,9 @@ impl V {
     fn function(&self, env: &Env, param: &Ty, body: &Option<Expr>) -> R<(Ty, bool)> {
         let mut cap = Env { vars: env.vars.clone() };
         cap.kill_pending();
+        if param.contains_nil() && !param.is_nil() {
+            return Err("function whose parameter type is `T | []` (open finding: return-type dispatch on a nil guard)".into());
+        }
         let Some(body) = body else {
             if param.is_nil() {
                 return Err("identity function of nil".into());
